@@ -18,7 +18,7 @@ func init() { register("C09", genC09) }
 
 type c09Desc struct {
 	Rt      string   `json:"runtime"`    // exitsOnTerm | ignoresTerm | alreadyExited | neverStarted
-	Exts    []string `json:"extensions"` // subExits | subIgnores | subNotPolling | unsub | alreadyExited | launchFail | neverRegisters
+	Exts    []string `json:"extensions"` // subExits | subIgnores | subNotPolling | subLatePoll | unsub | alreadyExited | launchFail | neverRegisters
 	Trigger string   `json:"trigger"`    // timeout | failure | explicit | shutdown
 	Allowed int64    `json:"allowed_ms"`
 }
@@ -71,7 +71,7 @@ func genC09(tier string, seed int64) []Case {
 	}
 	// timeout reset: the runtime withholds its response
 	for _, rt := range []string{"exitsOnTerm", "ignoresTerm"} {
-		for _, es := range extSets([]string{"subExits", "subIgnores", "unsub", "subNotPolling"}, 2) {
+		for _, es := range extSets([]string{"subExits", "subIgnores", "unsub", "subNotPolling", "subLatePoll"}, 2) {
 			n++
 			if len(es) < 2 || pick(n) {
 				add(c09Desc{Rt: rt, Exts: es, Trigger: "timeout", Allowed: 2000})
@@ -208,6 +208,31 @@ func runC09(c *Ctx, d c09Desc) {
 				record(p, ev)
 				return Stall(p) // got the INVOKE event, never asks for next again
 			}
+		case "subLatePoll":
+			// busy with the INVOKE event when the reset starts; asks for next only once the
+			// teardown is under way (the runtime is gone): must still get its one SHUTDOWN event
+			o.OnEvent = func(p *vh.Proc, pt *vh.Party, n int, ev *vh.Resp) *vh.Exit {
+				record(p, ev)
+				if parseExtEvent(ev.Body).EventType != "INVOKE" {
+					return nil
+				}
+				for {
+					gone := false
+					for _, e := range w.E.Log.Snapshot() {
+						if e.Src == "sup" && e.Kind == "exit" && strings.HasPrefix(e.Op, "runtime-") {
+							gone = true
+						}
+					}
+					if gone {
+						break
+					}
+					if !p.Sleep(300 * time.Microsecond) {
+						return nil
+					}
+				}
+				p.Sleep(3 * time.Millisecond)
+				return nil
+			}
 		case "unsub":
 			o.Events = []string{"INVOKE"}
 			o.OnEvent = func(p *vh.Proc, pt *vh.Party, n int, ev *vh.Resp) *vh.Exit { record(p, ev); return nil }
@@ -265,7 +290,7 @@ func runC09(c *Ctx, d c09Desc) {
 	}
 	// every extension that is expected to be polling must be parked in next before the trigger
 	for i, k := range d.Exts {
-		if k == "subExits" || k == "subIgnores" || k == "unsub" || (k == "alreadyExited" && d.Trigger != "failure") || (k == "subNotPolling") {
+		if k == "subExits" || k == "subIgnores" || k == "unsub" || (k == "alreadyExited" && d.Trigger != "failure") || (k == "subNotPolling") || (k == "subLatePoll") {
 			name := fmt.Sprintf("ext%d", i)
 			dl := time.Now().Add(5 * time.Second)
 			for time.Now().Before(dl) && w.E.ExtState(name) != "Ready" {
@@ -430,7 +455,7 @@ func runC09(c *Ctx, d c09Desc) {
 		aliveKills := vh.Filter(kills, func(e vh.Event) bool { return e.Extra["alive"] == "true" })
 		ec := "C09/ext/" + kind + "/" + d.Trigger
 		switch kind {
-		case "subExits", "subIgnores":
+		case "subExits", "subIgnores", "subLatePoll":
 			if c.Check(len(got) == 1, "one_shutdown_event", fmt.Sprintf("%s/events-%d", ec, len(got)), fmt.Sprintf("SHUTDOWN-subscribed polling extension received %d SHUTDOWN events", len(got)), nil) {
 				okReason := got[0].ShutdownReason == reason
 				if d.Rt == "neverStarted" && d.Trigger == "timeout" && got[0].ShutdownReason == "spindown" {
@@ -445,7 +470,7 @@ func runC09(c *Ctx, d c09Desc) {
 					c.Check(diff >= -2 && diff <= 50, "shutdown_deadline", ec+"/deadline", fmt.Sprintf("deadlineMs differs from request time + allowed by %d ms", diff), nil)
 				}
 			}
-			if kind == "subExits" {
+			if kind == "subExits" || kind == "subLatePoll" {
 				c.Check(len(aliveKills) == 0, "no_kill_if_exited", ec+"/killed-although-exited", "extension that exits on the SHUTDOWN event was killed", nil)
 			} else {
 				if c.Check(len(aliveKills) == 1, "kill_at_deadline", fmt.Sprintf("%s/kill-count-%d", ec, len(aliveKills)), "extension ignoring the SHUTDOWN event must be killed exactly once", nil) && D > 0 {
